@@ -350,3 +350,67 @@ def cross_backend(ctx):
     # every width is visited with both orders, but a process-wide leak depends on which backend asks first for a width:
     # shard by width so that each (width, first) pair meets a fresh process in at least one shard layout
     ctx.sweep("cross_backend", cases, body)
+
+
+# ------------------------------------------------------------------------------------------------------------------
+# The simulated circuit must be the one the user built, whatever was derived from it in between: derive other circuits
+# (*, +, copy, inverse, stack, split), modify the derived objects in place, then simulate the original.
+
+@part("after_derivation", quick=160, thorough=6000)
+def after_derivation(ctx):
+    from tangelo.linq import get_backend, Gate, Circuit
+
+    @st.composite
+    def cases(draw):
+        c = draw(S.circuits(max_width=4, max_gates=8, min_gates=1))
+        c["derive"] = draw(st.lists(st.sampled_from(["mul", "rmul", "add_left", "add_right", "copy", "inverse", "stack", "split"]), min_size=1, max_size=3))
+        c["edit"] = draw(st.sampled_from(["add_gate_high", "add_gate_low", "trim", "reindex", "simplify"]))
+        return c
+
+    def body(case):
+        n = S.circuit_width(case)
+        circ = S.build_circuit(case)
+        ref = R.run(case["gates"], n)
+        derived = []
+        for d in case["derive"]:
+            if d == "mul":
+                derived.append(circ * 2)
+            elif d == "rmul":
+                derived.append(2 * circ)
+            elif d == "add_left":
+                derived.append(circ + Circuit([Gate("H", 0)]))
+            elif d == "add_right":
+                derived.append(Circuit([Gate("X", 0)]) + circ)
+            elif d == "copy":
+                derived.append(circ.copy())
+            elif d == "inverse":
+                derived.append(circ.inverse())
+            elif d == "stack":
+                derived.append(circ.stack(circ))
+            elif d == "split":
+                derived.extend(circ.split())
+        for dc in derived:
+            if case["edit"] == "add_gate_high" and not dc._qubits_simulated:
+                dc.add_gate(Gate("X", dc.width + 1))
+            elif case["edit"] == "add_gate_low":
+                dc.add_gate(Gate("Z", 0))
+            elif case["edit"] == "trim":
+                dc.trim_qubits()
+            elif case["edit"] == "reindex" and dc.width > 0 and not dc._qubits_simulated:
+                k = len(dc._qubit_indices)
+                dc.reindex_qubits(list(range(k, 0, -1)))
+            elif case["edit"] == "simplify":
+                dc.simplify()
+        if circ.width != n:
+            raise Fail(f"after deriving {case['derive']} and editing the derived circuits ({case['edit']}), the original circuit's "
+                       f"width is {circ.width}, expected {n}", sig="derived:original-width-changed")
+        be = get_backend("cirq")
+        freqs, sv = be.simulate(circ, return_statevector=True)
+        sv = np.asarray(sv).reshape(-1)
+        if sv.shape != ref.shape or np.max(np.abs(sv - ref)) > 1e-8:
+            raise Fail(f"after deriving {case['derive']} and editing the derived circuits ({case['edit']}), simulating the original "
+                       f"circuit no longer gives its state", sig="derived:original-state-changed")
+        check_freqs_exact(freqs, R.probs(ref), n, "derived:cirq")
+        return nontrivial(case, ref), set(case["derive"]) | {case["edit"]}
+
+    ctx.search("after_derivation", cases(), body)
